@@ -141,13 +141,18 @@ def run(ctx):
     def field_src(fn, key, param):
         """on every path the field is the parameter passed through unchanged: Option::unwrap_or(param, 0) wrapped in the wire type,
         no arithmetic / bit operation / other parameter / value computed elsewhere"""
-        n_sh = 0
+        n_pass = 0
         for sh, fl in dsl.returned_components(P, fn):
-            n_sh += 1
             f = [x for x in fl if x.key == key]
             if not f:
                 return False
             nodes = list(walk(f[0].expr))
+            if not any(n[0] == 'param' for n in nodes):
+                # a path on which the optional parameter is absent (`match p { None => DEFAULT, .. }`): the field must be a constant
+                if any(n[0] in ('unknown', 'mutated', 'index', 'upd', 'discr', 'deref') or
+                       (n[0] == 'call' and not re.search(r'Vec::<T>::new$|::to_vec$|::into$|::from$', n[1])) for n in nodes):
+                    return False
+                continue
             if not any(n == ('param', param) for n in nodes):
                 return False
             for n in nodes:
@@ -155,11 +160,12 @@ def run(ctx):
                     return False
                 if n[0] == 'param' and n[1] != param:
                     return False
-                if n[0] == 'call' and not re.search(r'Option::<T>::unwrap_or$|::to_vec$|::into$|::from$|::new$', n[1]):
+                if n[0] == 'call' and not re.search(r'Option::<T>::(unwrap_or|unwrap_or_else|unwrap_or_default)$|::to_vec$|::into$|::from$|::new$', n[1]):
                     return False
                 if n[0] == 'const' and n[1] not in (0, None):
                     return False
-        return n_sh > 0
+            n_pass += 1
+        return n_pass > 0
     for fn, key, param in (('core::global::ts_pointer_event', 'pointerFlags', 1), ('core::global::ts_pointer_event', 'xPos', 2),
                            ('core::global::ts_pointer_event', 'yPos', 3), ('core::global::ts_keyboard_event', 'keyboardFlags', 1),
                            ('core::global::ts_keyboard_event', 'keyCode', 2), ('core::global::ts_input_event', 'messageType', 1),
